@@ -316,7 +316,14 @@ class Interp:
                 callee = None
                 if isinstance(s.exc.func, ast.Name) and (s.exc.func.id in env or s.exc.func.id in self.globals):
                     callee = env.get(s.exc.func.id, self.globals.get(s.exc.func.id))
-                if isinstance(callee, ModuleFunc) or (isinstance(callee, tuple) and callee and callee[0] in ('closure', 'partial')):
+                method_of_value = False
+                if isinstance(s.exc.func, ast.Attribute):
+                    # a method of a local object (not a dotted class name like json.JSONDecodeError): evaluate the call, it returns the exception
+                    root = s.exc.func.value
+                    while isinstance(root, ast.Attribute):
+                        root = root.value
+                    method_of_value = not (isinstance(root, ast.Name) and root.id in self.mod.imports and root.id not in env)
+                if method_of_value or isinstance(callee, ModuleFunc) or (isinstance(callee, tuple) and callee and callee[0] in ('closure', 'partial')):
                     # a helper that builds and returns the exception object
                     val = self.eval(s.exc, env)
                     if isinstance(val, Sym) and val.kind == 'instance':
